@@ -37,6 +37,18 @@ structure DS where
   sizes : List (String × Nat)
   deriving Repr
 
+/-- Known deviations of the unchanged code from what the property demands.  The primary
+model has every switch off; a switch reproduces one recorded finding so that the
+correspondence can tell "still the known deviation" from "something else". -/
+structure Quirks where
+  /-- node / face coordinate variables are looked up in `dataset.data_vars` only, so variables
+  held as xarray coordinates are not found -/
+  coordsInDataVars : Bool := false
+  /-- `two_dimension` is guessed as the first dimension of size two, without looking at the
+  edge tables -/
+  twoDimGuess : Bool := false
+  deriving Repr
+
 namespace DS
 
 def attr? (ds : DS) (key : String) : Option String := ds.attrs.lookup key
@@ -65,32 +77,35 @@ def connVar? (ds : DS) (key : String) : Option Var :=
   | some name => ds.dataVar? name
 
 /-- `node_x`, `node_y` — looked up in all variables -/
-def nodeCoords (ds : DS) : Except Err (Var × Var) :=
+def coordVar? (ds : DS) (q : Quirks) (name : String) : Option Var :=
+  if q.coordsInDataVars then ds.dataVar? name else ds.anyVar? name
+
+def nodeCoords (ds : DS) (q : Quirks := {}) : Except Err (Var × Var) :=
   match ds.attr? "node_coordinates" with
   | none => .error .key
   | some s =>
     match splitCoord s with
     | .error e => .error e
     | .ok (x, y) =>
-      match ds.anyVar? x, ds.anyVar? y with
+      match ds.coordVar? q x, ds.coordVar? q y with
       | some vx, some vy => .ok (vx, vy)
       | _, _ => .error .key
 
 /-- `face_x`, `face_y` — `None` if the attribute or either variable is missing -/
-def faceCoords (ds : DS) : Option (Var × Var) :=
+def faceCoords (ds : DS) (q : Quirks := {}) : Option (Var × Var) :=
   match ds.attr? "face_coordinates" with
   | none => none
   | some s =>
     match splitCoord s with
     | .error _ => none
     | .ok (x, y) =>
-      match ds.anyVar? x, ds.anyVar? y with
+      match ds.coordVar? q x, ds.coordVar? q y with
       | some vx, some vy => some (vx, vy)
       | _, _ => none
 
 /-- `node_dimension` -/
-def nodeDim (ds : DS) : Except Err String :=
-  match ds.nodeCoords with
+def nodeDim (ds : DS) (q : Quirks := {}) : Except Err String :=
+  match ds.nodeCoords q with
   | .error e => .error e
   | .ok (vx, _) => match vx.dims with
     | d :: _ => .ok d
@@ -146,27 +161,51 @@ def edgeDim (ds : DS) : Except Err String :=
         | [] => .error .index
       | [] => .error .noEdgeDim
 
-/-- `two_dimension` -/
-def twoDim (ds : DS) : String :=
+/-- `two_dimension`: the standard name `Two` if that dimension has size two; otherwise the
+size-two dimension the supplied edge tables actually use next to the edge dimension;
+otherwise any dimension of size two; otherwise `Two`. -/
+def twoDim (ds : DS) (q : Quirks := {}) : String :=
   if ds.size? "Two" = some 2 then "Two"
-  else match ds.sizes.find? (·.2 = 2) with
-    | some (name, _) => name
-    | none => "Two"
+  else
+    let fromTables : Option String :=
+      if q.twoDimGuess then none
+      else match ds.edgeDim with
+        | .error _ => none
+        | .ok ed =>
+          (["edge_node_connectivity", "edge_face_connectivity"].filterMap fun key =>
+            (ds.attr? key).bind ds.anyVar?).findSome? fun v =>
+              v.dims.find? fun d => d ≠ ed && ds.size? d = some 2
+    match fromTables with
+    | some d => d
+    | none => match ds.sizes.find? (·.2 = 2) with
+      | some (name, _) => name
+      | none => "Two"
 
 def sameSet (a b : List String) : Bool := a.all (b.contains ·) && b.all (a.contains ·)
 
-/-- `_to_index_array` of a variable that must carry a connectivity payload -/
-def decode (v : Var) (primary : String) : Except Err Table :=
+/-- the exception `sensible_fill_value` raises: it needs `node_count`, hence `node_x` -/
+def fillValueErr (ds : DS) (q : Quirks := {}) : Option Err :=
+  match ds.nodeDim q with
+  | .error e => some e
+  | .ok d => if (ds.size? d).isSome then none else some .key
+
+/-- `_to_index_array` of a variable that must carry a connectivity payload.  On float storage
+the code evaluates `sensible_fill_value` (after the dimension test, before the start index). -/
+def decode (ds : DS) (q : Quirks) (v : Var) (primary : String) : Except Err Table :=
   match v.conn with
   | none => .error .unmodelled
-  | some st => toIndexArray st primary
+  | some st =>
+    match st.payload, ds.fillValueErr q with
+    | .float _, some e =>
+      if primary ≠ st.dims.1 ∧ primary ≠ st.dims.2 then toIndexArray st primary else .error e
+    | _, _ => toIndexArray st primary
 
 /-- `face_node_array` -/
-def faceNodeArray (ds : DS) : Except Err Table :=
+def faceNodeArray (ds : DS) (q : Quirks := {}) : Except Err Table :=
   match ds.faceNodeVar, ds.faceDim with
   | .error e, _ => .error e
   | _, .error e => .error e
-  | .ok v, .ok fd => decode v fd
+  | .ok v, .ok fd => ds.decode q v fd
 
 /-- `max_node_count` -/
 def maxNodeCount (ds : DS) : Except Err Nat :=
@@ -176,11 +215,19 @@ def maxNodeCount (ds : DS) : Except Err Nat :=
     | some n => .ok n
     | none => .error .key
 
+/-- `face_count` -/
+def faceCount (ds : DS) : Except Err Nat :=
+  match ds.faceDim with
+  | .error e => .error e
+  | .ok d => match ds.size? d with
+    | some n => .ok n
+    | none => .error .key
+
 /-- the variable of an edge table (`edge_node` / `edge_face`) if it passes `has_valid_*` -/
-def validEdgeVar? (ds : DS) (key : String) : Option Var :=
+def validEdgeVar? (ds : DS) (q : Quirks) (key : String) : Option Var :=
   if !ds.hasEdgeDim then none
   else match ds.connVar? key, ds.edgeDim with
-    | some v, .ok ed => if sameSet v.dims [ed, ds.twoDim] then some v else none
+    | some v, .ok ed => if sameSet v.dims [ed, ds.twoDim q] then some v else none
     | _, _ => none
 
 /-- the variable of a face table (`face_edge` / `face_face`) if its dimensions are right -/
@@ -197,18 +244,18 @@ def lowerBound (v : Var) : Except Err Int :=
 
 /-- Everything the table level needs, or the exception raised while collecting it.
 The order of the steps follows the property accesses of the real code. -/
-def topoIn (ds : DS) (numbering : Option (List Pair)) : Except Err TopoIn := do
-  let fn ← ds.faceNodeArray
+def topoIn (ds : DS) (numbering : Option (List Pair)) (q : Quirks := {}) : Except Err TopoIn := do
   let w ← ds.maxNodeCount
+  let nf ← ds.faceCount
   let edgeDimSize : Option Nat := match ds.edgeDim with
     | .ok d => ds.size? d
     | .error _ => none
   let edgeTable (key : String) : Option (Except Err Table) :=
-    match ds.validEdgeVar? key, ds.edgeDim with
-    | some v, .ok ed => some (decode v ed)
+    match ds.validEdgeVar? q key, ds.edgeDim with
+    | some v, .ok ed => some (ds.decode q v ed)
     | _, _ => none
   let base : TopoIn :=
-    { faceNode := fn, width := w, hasEdgeDim := ds.hasEdgeDim, edgeDimSize := edgeDimSize,
+    { faceNode := ds.faceNodeArray q, fillValueErr := ds.fillValueErr q, nfaces := nf, width := w, hasEdgeDim := ds.hasEdgeDim, edgeDimSize := edgeDimSize,
       edgeNode := edgeTable "edge_node_connectivity", faceEdge := none,
       edgeFace := edgeTable "edge_face_connectivity", faceFace := none, numbering := numbering }
   -- face_edge: dimensions, then the `_FillValue`-inside-the-index-range test
@@ -216,22 +263,22 @@ def topoIn (ds : DS) (numbering : Option (List Pair)) : Except Err TopoIn := do
     match ds.validFaceVar? "face_edge_connectivity", ds.faceDim with
     | some v, .ok fd =>
       match v.encFill with
-      | none => some (decode v fd)
+      | none => some (ds.decode q v fd)
       | some fill =>
         match lowerBound v, base.edgeCount with
         | .error e, _ => some (.error e)
         | _, .error e => some (.error e)
-        | .ok lo, .ok n => if lo ≤ fill ∧ fill ≤ (n : Int) + lo then none else some (decode v fd)
+        | .ok lo, .ok n => if lo ≤ fill ∧ fill ≤ (n : Int) + lo then none else some (ds.decode q v fd)
     | _, _ => none
   let ff : Option (Except Err Table) :=
     match ds.validFaceVar? "face_face_connectivity", ds.faceDim with
-    | some v, .ok fd => some (decode v fd)
+    | some v, .ok fd => some (ds.decode q v fd)
     | _, _ => none
   pure { base with faceEdge := fe, faceFace := ff }
 
 /-- `UGrid._make_polygons`: the vertex ring of every face -/
-def polygonRings (ds : DS) : Except Err (List (List (Rat × Rat))) :=
-  match ds.nodeCoords, ds.faceNodeArray with
+def polygonRings (ds : DS) (q : Quirks := {}) : Except Err (List (List (Rat × Rat))) :=
+  match ds.nodeCoords q, ds.faceNodeArray q with
   | .error e, _ => .error e
   | _, .error e => .error e
   | .ok (vx, vy), .ok fn =>
@@ -240,8 +287,8 @@ def polygonRings (ds : DS) : Except Err (List (List (Rat × Rat))) :=
     | some rings => .ok rings
 
 /-- `UGrid.face_centres` when the dataset stores them (`none`: centroids are used) -/
-def storedFaceCentres (ds : DS) : Option (List (Rat × Rat)) :=
-  ds.faceCoords.map fun (vx, vy) => vx.vals.zip vy.vals
+def storedFaceCentres (ds : DS) (q : Quirks := {}) : Option (List (Rat × Rat)) :=
+  (ds.faceCoords q).map fun (vx, vy) => vx.vals.zip vy.vals
 
 end DS
 
